@@ -33,6 +33,8 @@ type freeOut struct {
 	Violations int64          `json:"lock_violations"`
 	First      string         `json:"first_violation"`
 	WaitOK     bool           `json:"wait_ok"`
+	PushFails  int64          `json:"push_failures"`
+	StopMono   int64          `json:"stop_mono"` // just before Stop was called
 }
 
 func cmdFree(args []string) {
@@ -61,7 +63,14 @@ func cmdFree(args []string) {
 	}
 
 	locker := &recLocker{}
-	rq := &recQueue{inner: quartz.NewJobQueue(), locker: locker}
+	if flags["slowlock"] { // acquiring the shared locker takes a while, as with a distributed lock
+		locker.latency = 400 * time.Microsecond
+	}
+	fq := &faultQueue{inner: quartz.NewJobQueue()}
+	if flags["pushfail"] { // a persistent queue with transient failures: every 23rd Push fails
+		fq.every = 23
+	}
+	rq := &recQueue{inner: fq, locker: locker}
 	misfired := make(chan quartz.ScheduledJob, 4096)
 	n := 1
 	if flags["shared"] {
@@ -241,6 +250,7 @@ func cmdFree(args []string) {
 	}
 	time.Sleep(time.Until(deadline))
 	wg.Wait()
+	out.StopMono = mono()
 	for _, s := range scheds {
 		s.Stop()
 	}
@@ -256,6 +266,7 @@ func cmdFree(args []string) {
 	out.Events = log.take()
 	out.Violations = rq.violations.Load()
 	out.First, _ = rq.first.Load().(string)
+	out.PushFails = fq.failed.Load()
 	if err := json.NewEncoder(os.Stdout).Encode(out); err != nil {
 		panic(err)
 	}
